@@ -808,7 +808,7 @@ class Bundle:
         vl = lambda cols: "[" + "; ".join(raw(np.array(c, dtype=float)) for c in cols) + "]"
         sn = self.sol_names()
         bl = lambda l: "[" + "; ".join("true" if b else "false" for b in l) + "]"
-        term = (f"B.check_simulation {self.nb} {self.nf} {self.ne} {self.ny} {self.nw} {'true' if dev else 'false'} "
+        term = (f"B.check_simulation {'true' if sc.get('split') else 'false'} {self.nb} {self.nf} {self.ne} {self.ny} {self.nw} {'true' if dev else 'false'} "
                 f"{bl(so.true_initials)} {sn['T']} {sn['P']} {sn['K']} {sn['X']} {sn['J']} {sn['Ru']} "
                 f"{sn['Z']} {sn['H']} {sn['D']} {raw(np.array(init))} {vl(us)} {vl(vs)} {vl(ws)} "
                 f"[{'; '.join(ol(c) for c in exp_xi)}] [{'; '.join(ol(c) for c in exp_y)}]")
@@ -921,6 +921,81 @@ def property_residual(spec, m, sc, out, span, Jc=None, V=None, tol=2e-6) -> list
             r = o - rhs
             if not (abs(r) <= tol * (1 + abs(o))):
                 bad.append(f"measurement equation {k + 1} at period index {ti}: residual {r:.3e}")
+    return bad
+
+
+def _span_cells(spec, dbx, span, variant=None):
+    names = [vname(j) for j in range(spec["n"])] + [oname(k) for k in range(len(spec["meas"]))] + \
+            [ename(s) for s in range(spec["nshocks"])] + ["ant_" + ename(s) for s in range(spec["nshocks"])] + \
+            [wname(k) for k in range(spec["nw"])]
+    out = {}
+    for nm in names:
+        a = np.asarray(dbx[nm].get_data(span), dtype=float)
+        a = a.reshape(len(list(span)), -1)
+        out[nm] = a[:, 0 if variant is None else variant]
+    return out
+
+
+def _cells_differ(a: dict, b: dict, tol) -> list[str]:
+    bad = []
+    for nm in a:
+        x, y = np.nan_to_num(a[nm]), np.nan_to_num(b[nm])
+        if x.shape != y.shape or not np.all(np.abs(x - y) <= tol * (1 + np.abs(y))):
+            bad.append(f"{nm}: {x.tolist()} != {y.tolist()}")
+    return bad
+
+
+def options_invariance(spec, m, sc, db, out, span) -> list[str]:
+    """Output options and frame-by-frame simulation do not change any simulated cell of the span:
+    prepend_input=False, remove_initial/remove_terminal=False, force_split_frames toggled."""
+    bad = []
+    ref = _span_cells(spec, out, span)
+    base = {"force_split_frames": True} if sc.get("split") else {}
+    for extra in ({"prepend_input": False}, {"remove_initial": False, "remove_terminal": False},
+                  {"force_split_frames": not sc.get("split")}):
+        opts = dict(base); opts.update(extra)
+        try:
+            o2 = m.simulate(db, span, method="first_order", deviation=sc["deviation"], **opts)
+            d = _cells_differ(_span_cells(spec, o2, span), ref, 1e-9)
+        except Exception as e:
+            d = [f"raises {type(e).__name__}: {e}"[:200]]
+        bad += [f"{extra}: {q}"[:300] for q in d[:2]]
+    return bad
+
+
+def variants_check(spec, sc, factor=0.95) -> list[str] | None:
+    """Variant k of a two-variant model (different parameter values per variant) simulates like the singleton model with
+    the parameters of variant k.  None when not applicable (no parameters, growth, product terms, variant not STABLE)."""
+    import irispie as ir
+    src, params = render_source(spec)
+    if not params or spec.get("growth") or any(e["nl"] for e in spec["eqs"]):
+        return None
+    pv = [dict(params), {k: round(v * factor, 4) for k, v in params.items()}]
+
+    def solved(assign, nv):
+        mm = ir.Simultaneous.from_string(src, linear=spec["linear"], flat=spec["flat"])
+        if nv > 1:
+            mm.alter_num_variants(nv)
+        mm.assign(**assign)
+        with contextlib.redirect_stdout(io.StringIO()):
+            mm.steady()
+        mm.solve()
+        return mm
+    try:
+        m2 = solved({k: [pv[0][k], pv[1][k]] for k in params}, 2)
+        if any(q.system_stability.name != "STABLE" for q in m2.get_solution()):
+            return None
+        singles = [solved(pv[k], 1) for k in range(2)]
+    except Exception:
+        return None
+    bad = []
+    # deviations with perturbed initial conditions; levels from each variant's own steady state
+    for scv in (dict(sc, deviation=True), dict(sc, deviation=False, init=[])):
+        _db, out2, span = run_scenario(m2, spec, scv)
+        for k in range(2):
+            _d, outk, _s = run_scenario(singles[k], spec, scv)
+            d = _cells_differ(_span_cells(spec, out2, span, variant=k), _span_cells(spec, outk, span), 1e-9)
+            bad += [f"deviation={scv['deviation']} variant {k}: {q}"[:300] for q in d[:2]]
     return bad
 
 
@@ -1296,7 +1371,20 @@ def falsify(ctx, hints):
             if bad:
                 add("level-vs-deviation", "level simulation differs from steady state plus deviation simulation",
                     where, bad[:5], "equal within 1e-7")
-            # non-explosive: a long continuation without shocks returns to the steady state
+            if k_run == len(scen) - 1:
+                bad = options_invariance(spec, m, sc, db, out, span)
+                info["option_invariance_checks"] = info.get("option_invariance_checks", 0) + 1
+                if bad:
+                    add("options:span-cells-differ", "an output option / frame-by-frame simulation changes simulated cells of the "
+                        "span (prepend_input, remove_initial, remove_terminal, force_split_frames)", where, bad[:4],
+                        "identical cells within 1e-9")
+                if info["models"] % 2 == 0:
+                    bad = variants_check(spec, sc)
+                    if bad is not None:
+                        info["variant_checks"] = info.get("variant_checks", 0) + 1
+                        if bad:
+                            add("variants:differs-from-singleton", "variant k of a two-variant model does not simulate like the "
+                                "singleton model with the same parameters", where, bad[:4], "identical cells within 1e-9")
         if len(fails) >= 6:
             break
     # 2. models an independent computation classifies as NOT determinate must not be reported STABLE
